@@ -17,6 +17,7 @@ import (
 	"verif/prop/c12"
 	"verif/prop/c15"
 	"verif/prop/c16"
+	"verif/prop/c17"
 	"verif/prop/c18"
 	"verif/prop/c19"
 	"verif/prop/c20"
@@ -45,6 +46,7 @@ var All = map[string]Prop{
 	"C12": {Level: "model_checking", Check: c12.Check, Replay: c12.Replay},
 	"C15": {Level: "model_checking", Check: c15.Check, Replay: c15.Replay},
 	"C16": {Level: "model_checking", Check: c16.Check, Replay: c16.Replay},
+	"C17": {Level: "exploration", Check: c17.Check, Replay: c17.Replay},
 	"C18": {Level: "model_checking", Check: c18.Check, Replay: c18.Replay},
 	"C19": {Level: "exploration", Check: c19.Check, Replay: c19.Replay},
 	"C20": {Level: "fault_enumeration", Check: c20.Check, Replay: c20.Replay},
